@@ -131,6 +131,11 @@ def cases(tier, seed):
             for mult in (1, 2):
                 out.append({'complex': True, 'model': 'cplx', 'solver': solver, 'method': None, 'backend': backend,
                             'vectorize': False, 'dt': 0.0625, 'dts': 0.0625 * mult, 'T': 1.0, 'cutoff': 0.0, 'cut': 'zero'})
+    # delayed models: Heun with discrete edge delays (C09's recurrence) and scipy on a delay differential equation
+    # (C10's method-of-steps solution)
+    from . import C09, C10
+    out += [dict(c_, delegate='C09') for c_ in C09.cases(tier, 0) if c_.get('solver') == 'heun' and c_.get('tag') in ('one', 'shared_source')]
+    out += [dict(c_, delegate='C10') for c_ in C10.cases(tier, 0) if c_.get('kind') == 'steps']
     if tier != 'quick':
         for model in ('decay', 'rot', 'edge', 'tdep'):
             for g in grid(tier)[::9]:
@@ -169,6 +174,11 @@ def own_fixed_step(C, solver, dt, steps, store_step, hist_inputs=False):
 
 def run_case(case):
     from .. import build, impl, pool
+    if case.get('delegate'):
+        from . import C09, C10
+        r = {'C09': C09, 'C10': C10}[case['delegate']].run_case(case)
+        r['nontrivial'] = True
+        return r
     model = case['model']
     m = MODELS.get(model)
     res = {'evals': 0}
